@@ -251,6 +251,17 @@ theorem model_verdict_none (ttl : Nat) (es : List Event) (e : Event) :
 
   Every theorem below is `decide` over Generated/Timers.lean. Line numbers are carried by the facts for the
   reader only; no theorem mentions them. -/
+/-- a collector configured without a lifetime (TemplateTTL = 0) keeps UDP templates for the protocol's default,
+    `entities.TemplateTTL` = 1800 s (RFC 7011 suggests three times the 600 s refresh interval) - not for the refresh
+    interval, and not forever; any other configured value is taken as it is. The constant is regenerated from the
+    source on every run, so both halves are ties: to the constructor's rule and to the constant. -/
+theorem default_lifetime_is_the_template_ttl_constant :
+    effectiveTTL 0 = Generated.cTemplateTTL ∧ Generated.cTemplateTTL = 1800 ∧
+    Generated.cTemplateTTL = 3 * Generated.cTemplateRefreshTimeOut ∧ ∀ t, 0 < t → effectiveTTL t = t := by
+  refine ⟨rfl, by decide, by decide, ?_⟩
+  intro t ht
+  simp [effectiveTTL, Nat.ne_of_gt ht]
+
 section Ties
 open Generated.TimerFacts
 
